@@ -775,6 +775,87 @@ class Gen:
         self.budget = saved_budget - 4
         return body
 
+    # ------------------------------------------------------------ a routine that returns out of nested loops, called from a loop
+    def iter_sources(self):
+        """(sources, kind of the names) for a short loop over lights: at most about four names."""
+        roll = self.rng.random()
+        if roll < 0.3 and len(self.pop) <= 4:
+            return [{'kind': 'all'}], 'light'
+        if roll < 0.5:
+            kind = self.pick(['groups', 'locations'])
+            if len(self.groups if kind == 'groups' else self.locs) <= 4:
+                return [{'kind': kind}], kind[:-1]
+        srcs = []
+        for _ in range(self.rng.randint(2, 3)):
+            r2 = self.rng.random()
+            if r2 < 0.7:
+                srcs.append({'kind': 'light', 'name': A.string(self.some_light_name())})
+            else:
+                small = [g for g in self.groups if sum(1 for d in self.pop if d['group'] == g) <= 2]
+                if small:
+                    srcs.append({'kind': 'group', 'name': A.string(self.pick(small))})
+        return srcs or [{'kind': 'light', 'name': A.string(self.some_light_name())}], 'light'
+
+    def finder_pair(self, scope):
+        """`define finder ... repeat <lights> as a ... repeat ... if <count reached> return` and a loop over
+        other lights that calls it in the middle of its body: the names the routine's loops had not reached,
+        its loop frames and its counters must be gone when the caller goes on."""
+        self.fresh += 1
+        name, ctr = 'finder%d' % self.fresh, 'found%d' % self.fresh
+        ret = self.pick(['num', None])
+        out = [{'op': 'assign', 'name': ctr, 'e': A.num('0')}]
+        self.declare(scope, ctr, 'num', 'E').frozen = True
+        self.routines[name] = {'params': [], 'ret': ret, 'cls': 'E', 'recursive': False}
+        rscope = Scope(None, True)
+        rscope.vars[ctr] = self.globals[ctr]
+        s1 = rscope.child()
+        src1, _ = self.iter_sources()
+        a = self.loop_var(s1, 'E', 'str')
+        s2 = s1.child()
+        limit = self.rng.randint(1, 4)
+        leave = {'op': 'return', 'e': ('bin', '*', ('var', ctr), A.num('10')) if ret == 'num' else None}
+        inner_body = [{'op': 'assign', 'name': ctr, 'e': ('bin', '+', ('var', ctr), A.num('1'))}]
+        if self.chance(0.6):
+            src2, _ = self.iter_sources()
+            b = self.loop_var(s2, 'E', 'str')
+            inner = {'op': 'loop', 'form': 'iter', 'sources': src2, 'lvar': b, 'wk': 'none'}
+            inner_body.append({'op': 'print', 'nl': False, 'e': ('var', b)})
+        else:
+            b = self.loop_var(s2, 'E')
+            inner = {'op': 'loop', 'form': 'range', 'a': A.num('1'), 'b': A.num(str(self.rng.randint(1, 3))), 'var': b}
+            inner_body.append({'op': 'print', 'nl': False, 'e': ('var', b)})
+        inner_body.append({'op': 'if', 'e': ('bin', '>=', ('var', ctr), A.num(str(limit))), 'then': [leave], 'else': None})
+        inner['body'] = inner_body
+        outer = {'op': 'loop', 'form': 'iter', 'sources': src1, 'lvar': a, 'wk': 'none',
+                 'body': [{'op': 'print', 'nl': False, 'e': ('var', a)}, inner]}
+        body = [outer]
+        if ret == 'num':
+            body.append({'op': 'return', 'e': A.num('-1')})
+        out.append({'op': 'defroutine', 'name': name, 'params': [], 'body': body})
+        # the caller
+        cscope = scope.child()
+        src3, what = self.iter_sources()
+        g = self.loop_var(cscope, 'E', 'str')
+        caller = {'op': 'loop', 'form': 'iter', 'sources': src3, 'lvar': g, 'wk': self.pick(['none', 'range'])}
+        if caller['wk'] == 'range':
+            caller['a'], caller['b'] = A.num('10'), A.num('90')
+            caller['var'] = self.loop_var(cscope, 'A')
+        target = {'kind': what, 'name': ('var', g)}
+        call = ('call', name, [])
+        cbody = [{'op': 'action', 'act': self.pick(['set', 'on']), 'ops': [dict(target)]}]
+        if ret == 'num' and self.chance(0.6):
+            cbody.append({'op': 'print', 'nl': False, 'e': call})
+        else:
+            cbody.append({'op': 'callstmt', 'e': call})
+        if caller['wk'] == 'range':
+            cbody.append({'op': 'print', 'nl': False, 'e': ('var', caller['var'])})
+        cbody.append({'op': 'action', 'act': self.pick(['set', 'off']), 'ops': [dict(target)]})
+        cbody.append({'op': 'print', 'nl': True, 'e': ('var', g)})
+        caller['body'] = cbody
+        out.append(caller)
+        self.budget -= 8
+        return out
+
     # ------------------------------------------------------------ whole program
     def program(self):
         scope = Scope()
@@ -785,7 +866,12 @@ class Gen:
         for _ in range(self.rng.randint(0, 3)):
             stmts.append(self.stmt_assign(scope))
         made = 0
+        finder_at = self.rng.randint(0, 6) if (self.profile in ('routines', 'loops', 'general', 'nested') and len(self.pop) >= 2
+                                                and self.chance(0.3)) else -1
         while self.budget > 0:
+            if finder_at == 0:
+                stmts += self.finder_pair(scope)
+            finder_at -= 1
             if made < nroutines and self.chance(0.4):
                 stmts.append(self.gen_routine(made))
                 made += 1
